@@ -119,3 +119,33 @@ func hxBuildShape(parts, embeds, atts int, msgEnc Encoding, fileEnc Encoding) *M
 	}
 	return m
 }
+
+// hxNormWS collapses runs of blanks into one blank and trims both ends.
+func hxNormWS(b []byte) []byte {
+	var r []byte
+	pend := false
+	for _, c := range b {
+		if c == ' ' || c == '\t' {
+			pend = true
+			continue
+		}
+		if pend && len(r) > 0 {
+			r = append(r, ' ')
+		}
+		pend = false
+		r = append(r, c)
+	}
+	return r
+}
+
+func hxEqBytes(a, b []byte) bool {
+	if len(a) != len(b) {
+		return false
+	}
+	var d byte
+	for i := range a {
+		d |= a[i] ^ b[i]
+	}
+	return d == 0
+}
+
